@@ -1,7 +1,7 @@
 (** C17 — the useful-peer list is a bounded most-recently-used list.
     Specification (per document, oldest first): registering [p] turns the list [ps] into
     [lastn cap (without p ps ++ [p])]. [get_sync_peers] returns its reverse. *)
-From ID Require Import Model.StoreOps Proofs.PeersFacts Proofs.CapFacts.
+From ID Require Import Model.StoreOps Proofs.PeersFacts Proofs.CapFacts Proofs.SettingsFacts.
 
 (** Any sequence of registrations for an existing document with strictly increasing clock
     readings (here: consecutive), starting from any state that satisfies the table invariant
@@ -46,9 +46,18 @@ Theorem C17_survives_reopen : forall ks EH MF CAP s o, (o = SReopen \/ exists l 
              get_cap T' ns = get_cap (s_tables s) ns.
 Proof. exact reopen_keeps_settings. Qed.
 
+(** a document's peer list is what the registrations for THIS document made it: any history of other
+    store operations (registrations and removals of other documents, writes, reopen, refused calls)
+    leaves it as it was *)
+Theorem C17_history_keeps_peers : forall ks EH MF CAP ops s ns,
+  Forall (fun o => (forall p, o <> SRegisterPeer ns p) /\ o <> SRemove ns) ops ->
+  get_sync_peers (s_tables (fold_left (fun s o => fst (store_step ks EH MF CAP s o)) ops s)) ns = get_sync_peers (s_tables s) ns.
+Proof. exact history_keeps_peers. Qed.
+
 Print Assumptions C17_peers_mru.
 Print Assumptions C17_spec_step_props.
 Print Assumptions C17_get_sync_peers_is_reverse.
 Print Assumptions C17_register_unknown_fails.
 Print Assumptions C17_nonvacuous.
 Print Assumptions C17_survives_reopen.
+Print Assumptions C17_history_keeps_peers.
